@@ -105,9 +105,18 @@ def run(ctx):
                 break
             if hv == "Some":
                 hw = writes.get(("field", ("field", h, "Some.0"), "no_backtracking"))
-                guarded = any(e["k"] == "branch" and e["cond"][0] != "variant" and
-                              mentions(e["cond"], lambda x: x == ("field", h, "Some.0")) and
-                              mentions(e["cond"], lambda x: x == me) for e in p.events)
+                # the write may be skipped only on the path where the head node was found to *be* this node
+                guarded = False
+                for e in p.events:
+                    if e["k"] == "branch" and e["cond"][0] != "variant" and \
+                            mentions(e["cond"], lambda x: x == ("field", h, "Some.0")) and mentions(e["cond"], lambda x: x == me):
+                        c, neg = e["cond"], False
+                        while c[0] == "unop" and c[1] == "Not":
+                            c, neg = c[2], not neg
+                        equal_means = not (c[0] == "binop" and c[1] == "Ne")
+                        val = (e["value"] is True) != neg
+                        if val == equal_means:
+                            guarded = True      # pointers equal: the node is already marked as `self`
                 if not const_true(hw) and not guarded:
                     ok, why = False, "the head node of ancestor %s is not marked" % show(anc)
                     break
